@@ -62,16 +62,18 @@ mod agg_minmaxsum__par;
 mod agg_lattice__par;
 mod neg_rec_after__par;
 mod agg_empty__par;
-mod disj__topar;
-mod disj__init;
-mod disj__exppar;
-mod pat_args__pari;
-mod multi_head_disj__ser;
-mod neg_in_disj__exp;
-mod mac_basic__mrt;
-mod mac_basic__srcpar;
-mod mac_nested__ser;
-mod mac_disj__exp;
+mod agg_empty_rel__topar;
+mod disj__pari;
+mod disj__src2;
+mod disj__permpar;
+mod pat_args__ser;
+mod rep_expr__exp;
+mod neg_in_disj__par;
+mod mac_basic__topar;
+mod mac_basic__init;
+mod mac_capture__exp;
+mod mac_gensym_disj__par;
+mod mac_disj__exppar;
 
 fn lookup(name: &str) -> fn() -> Box<dyn Driven> {
    match name {
@@ -129,16 +131,18 @@ fn lookup(name: &str) -> fn() -> Box<dyn Driven> {
       "agg_lattice__par" => agg_lattice__par::make,
       "neg_rec_after__par" => neg_rec_after__par::make,
       "agg_empty__par" => agg_empty__par::make,
-      "disj__topar" => disj__topar::make,
-      "disj__init" => disj__init::make,
-      "disj__exppar" => disj__exppar::make,
-      "pat_args__pari" => pat_args__pari::make,
-      "multi_head_disj__ser" => multi_head_disj__ser::make,
-      "neg_in_disj__exp" => neg_in_disj__exp::make,
-      "mac_basic__mrt" => mac_basic__mrt::make,
-      "mac_basic__srcpar" => mac_basic__srcpar::make,
-      "mac_nested__ser" => mac_nested__ser::make,
-      "mac_disj__exp" => mac_disj__exp::make,
+      "agg_empty_rel__topar" => agg_empty_rel__topar::make,
+      "disj__pari" => disj__pari::make,
+      "disj__src2" => disj__src2::make,
+      "disj__permpar" => disj__permpar::make,
+      "pat_args__ser" => pat_args__ser::make,
+      "rep_expr__exp" => rep_expr__exp::make,
+      "neg_in_disj__par" => neg_in_disj__par::make,
+      "mac_basic__topar" => mac_basic__topar::make,
+      "mac_basic__init" => mac_basic__init::make,
+      "mac_capture__exp" => mac_capture__exp::make,
+      "mac_gensym_disj__par" => mac_gensym_disj__par::make,
+      "mac_disj__exppar" => mac_disj__exppar::make,
       _ => panic!("no such program variant in this shard: {}", name),
    }
 }
